@@ -1,10 +1,17 @@
-import Holpy.Kernel.Sem
+import Holpy.Kernel.Soundness
 import Holpy.C01.Gen
 /-
-C01 — property theorems.  (The semantic soundness theorems are added when the kernel proof
-files are merged; this first part pins the rule table regenerated from `kernel/thm.py`.)
+C01 — every sequent the checker accepts from primitive inferences is valid.
+
+`Good th` (Kernel/Soundness.lean) = `th` passes `check_thm_type`, uses the logical constants at
+instances of their declared types, and is valid in EVERY finite standard model: every assignment
+of sizes ≥ 1 to type variables, schematic type variables and type constructors, and every
+admissible valuation of free variables, schematic variables and non-logical constants.
 -/
 namespace Holpy.C01
+open Holpy
+
+/-! ### the rule table regenerated from `kernel/thm.py` -/
 
 /-- The rules `primitive_deriv` offers are exactly the 15 the model implements, with the argument
 signatures the model's dispatch expects: a rule added, removed or re-typed in `kernel/thm.py`
@@ -23,5 +30,130 @@ def ruleKnown (r : String) : Bool :=
 
 /-- every rule of the table has a clause in the model's dispatch -/
 theorem rule_table_modelled : (Gen.primitiveDeriv.map (·.1)).all ruleKnown = true := by decide
+
+/-! ### soundness of one checker step -/
+
+/-- One step of the checker on a primitive rule (`applyRule` followed by `check_thm_type`): from
+premises that are well-typed and valid in every finite standard model, an accepted result is
+well-typed and valid in every finite standard model — whatever the argument is (ill-typed, open,
+clashing names, schematic variables in hypotheses …), as long as it uses the logical constants at
+instances of their types. -/
+theorem prim_sound (rule : String) (arg : Arg) (prems : List Thm) (th : Thm)
+    (hp : ∀ p ∈ prems, Good p) (ha : Arg.sigOK arg = true)
+    (h : checkStep rule arg prems = .ok th) : Good th := by
+  unfold checkStep at h
+  cases hr : applyRule rule arg prems with
+  | error e => rw [hr] at h; cases h
+  | ok th0 =>
+    rw [hr] at h
+    simp only [bind, Except.bind] at h
+    by_cases hwt : Thm.checkThmType th0 = true
+    · rw [if_pos hwt] at h
+      cases h
+      unfold applyRule at hr
+      split at hr
+      all_goals first
+        | (cases hr; first
+            | exact assume_sound _ ha hwt
+            | exact impliesIntr_sound _ _ ha (hp _ (by simp)) hwt
+            | exact substType_sound _ _ (hp _ (by simp)) hwt)
+        | exact impliesElim_sound _ _ _ (hp _ (by simp)) (hp _ (by simp)) hr hwt
+        | exact reflexive_sound _ _ ha hr hwt
+        | exact symmetric_sound _ _ (hp _ (by simp)) hr hwt
+        | exact transitive_sound _ _ _ (hp _ (by simp)) (hp _ (by simp)) hr hwt
+        | exact combination_sound _ _ _ (hp _ (by simp)) (hp _ (by simp)) hr hwt
+        | exact equalIntr_sound _ _ _ (hp _ (by simp)) (hp _ (by simp)) hr hwt
+        | exact equalElim_sound _ _ _ (hp _ (by simp)) (hp _ (by simp)) hr hwt
+        | exact substitution_sound _ _ _ (hp _ (by simp)) ha hr hwt
+        | exact betaConv_sound _ _ ha hr hwt
+        | exact abstraction_sound _ _ _ (hp _ (by simp)) hr hwt
+        | exact forallIntr_sound _ _ _ (hp _ (by simp)) hr hwt
+        | exact forallElim_sound _ _ _ ha (hp _ (by simp)) hr hwt
+        | (split at hr <;> cases hr)
+    · rw [if_neg hwt] at h
+      cases h
+
+/-! ### soundness of accepted proof scripts -/
+
+/-- Every sequent of every script (any length) that the checker model accepts is Good, provided
+the sequents it starts from are. -/
+theorem lookupPrems_mem (acc : List Thm) (l : List Nat) (ps : List Thm)
+    (h : lookupPrems acc l = .ok ps) : ∀ p ∈ ps, p ∈ acc := by
+  induction l generalizing ps with
+  | nil => simp only [lookupPrems] at h; cases h; intro p hp; cases hp
+  | cons i l ih =>
+    simp only [lookupPrems] at h
+    cases hi : acc[i]? with
+    | none => rw [hi] at h; cases h
+    | some thi =>
+      rw [hi] at h
+      simp only at h
+      cases hl : lookupPrems acc l with
+      | error e => rw [hl] at h; cases h
+      | ok ps' =>
+        rw [hl] at h
+        cases h
+        intro p hp
+        cases hp with
+        | head => exact List.mem_of_getElem? hi
+        | tail _ hp1 => exact ih ps' hl p hp1
+
+theorem runScript_sound (steps : List Step) (acc res : List Thm)
+    (hacc : ∀ th ∈ acc, Good th) (hs : ∀ s ∈ steps, Arg.sigOK s.arg = true)
+    (h : runScript steps acc = .ok res) : ∀ th ∈ res, Good th := by
+  induction steps generalizing acc with
+  | nil =>
+    simp only [runScript] at h
+    cases h
+    exact hacc
+  | cons s rest ih =>
+    simp only [runScript] at h
+    cases hm : lookupPrems acc s.prevs with
+    | error e => rw [hm] at h; cases h
+    | ok prems =>
+      rw [hm] at h
+      simp only at h
+      cases hc : checkStep s.rule s.arg prems with
+      | error e => rw [hc] at h; cases h
+      | ok th =>
+        rw [hc] at h
+        simp only at h
+        have hprems : ∀ p ∈ prems, Good p :=
+          fun p hpm => hacc p (lookupPrems_mem acc s.prevs prems hm p hpm)
+        have hgood : Good th := prim_sound s.rule s.arg prems th hprems (hs s (by simp)) hc
+        apply ih (acc ++ [th]) _ (fun s' hs' => hs s' (by simp [hs'])) h
+        intro th' hth'
+        rcases List.mem_append.1 hth' with h1 | h1
+        · exact hacc th' h1
+        · simp at h1; subst h1; exact hgood
+
+/-- Whenever the checker accepts a gap-free proof built from the primitive rules (no axioms),
+every sequent in it is well-typed and true in every finite standard model. -/
+theorem check_proof_sound (steps : List Step) (res : List Thm)
+    (hs : ∀ s ∈ steps, Arg.sigOK s.arg = true) (h : runScript steps [] = .ok res) :
+    ∀ th ∈ res, Good th :=
+  runScript_sound steps [] res (fun _ h => by cases h) hs h
+
+/-- the sequent `⊢ false` (`false` is an uninterpreted boolean constant before `logic_base`
+defines it) -/
+def falseThm : Thm := ⟨[], .const "false" Ty.bool⟩
+
+/-- `⊢ ∀A::bool. A` -/
+def allFalseThm : Thm :=
+  ⟨[], .comb (.const "all" (Ty.fn (Ty.fn Ty.bool Ty.bool) Ty.bool)) (.abs "A" Ty.bool (.bound 0))⟩
+
+def trivModel : Model := ⟨fun _ => 0, fun _ => 0, fun _ _ => 0⟩
+
+theorem falseThm_not_valid : ¬ Valid trivModel falseThm := by
+  intro h
+  have := h (fun _ _ _ => 0) (fun k n T => Model.size_pos _ _) (fun _ hm => by cases hm)
+  simp [holds, falseThm, sem, constVal, logicalKind] at this
+
+/-- No accepted proof ends in `⊢ false`. -/
+theorem no_false (steps : List Step) (res : List Thm)
+    (hs : ∀ s ∈ steps, Arg.sigOK s.arg = true) (h : runScript steps [] = .ok res) :
+    falseThm ∉ res := by
+  intro hm
+  exact falseThm_not_valid ((check_proof_sound steps res hs h _ hm).valid trivModel)
 
 end Holpy.C01
